@@ -86,6 +86,14 @@ def jobs(tier, seed):
         out += split_job(dict(case="mask", params=dict(shape=sh, contexts=contexts, algs=["earley", "cky"], boolean_input=True)), [0, 1])
         nts = sorted({h for h, _ in sk.rules})
         out += split_job(dict(case="mask", params=dict(shape=sh, contexts=contexts, algs=["earley", "cky"], rename=[(X, f"Q{len(nts) - i}") for i, X in enumerate(nts)])), [0, 1])
+    lc = grammar("G-LC3")
+    ctxs = [list(x) for x in all_strings(lc.V, 2)]
+    import random as _r
+
+    rnd = _r.Random(7)
+    orders = [None, list(reversed(range(lc.K)))] + [rnd.sample(range(lc.K), lc.K) for _ in range(4 if quick else 10)]
+    for pm in orders:
+        out.append(dict(case="mask", params=dict(shape="G-LC3", contexts=ctxs, algs=["earley", "cky"], perm=pm, fixed={str(k): 1 for k in range(lc.K)})))
     out.append(dict(case="mask", params=dict(shape="G-S1", contexts=[[], ["a"]], algs=["earley"], canary=True)))
     seeds = [0, 1 + seed % 1000] if quick else [0, 1, 2, 1 + seed % 1000]
     return [dict(j, hashseed=s) for j in out for s in (seeds if not j["params"].get("canary") else seeds[:1])]
